@@ -570,15 +570,27 @@ func cmdCheck(args []string) int {
 		pid, *tier, len(reps), total, discharged, len(failed), undecided, loadS, genS, wall)
 	if !*noEvidence && *prop != "" {
 		var samples []interface{}
-		for i, r := range reps {
-			if i >= 3 {
-				break
-			}
-			for j, o := range r.Obls {
-				if j >= 2 {
-					break
+		// samples: the first obligation of every kind, then postconditions of up to eight functions
+		seenKind := map[string]bool{}
+		for _, r := range reps {
+			nPost := 0
+			for _, o := range r.Obls {
+				kind := o.Kind
+				if i := strings.Index(kind, ":"); i >= 0 {
+					kind = kind[:i]
 				}
-				samples = append(samples, map[string]interface{}{"obligation": o.Name, "kind": o.Kind, "clause": o.Desc, "status": o.Result.Status, "backend": o.Result.Backend})
+				take := !seenKind[kind]
+				if !take && kind == "post" && nPost == 0 && len(samples) < 24 {
+					take = true
+				}
+				if !take {
+					continue
+				}
+				seenKind[kind] = true
+				if kind == "post" {
+					nPost++
+				}
+				samples = append(samples, map[string]interface{}{"obligation": o.Name, "kind": o.Kind, "clause": firstN(o.Desc, 400), "status": o.Result.Status, "backend": o.Result.Backend, "seconds": round3(o.Result.Seconds)})
 			}
 		}
 		sort.Strings(fnames)
